@@ -104,7 +104,7 @@ pub fn run_case(seed: u64, scratch: &Path, rep: &mut Rep) {
     let rec = recorder();
     rec.start(&dir, Mode::Off);
     rep.sample("_case", json!({"engine": "E-LOCK", "seed": seed, "cfg": cfg.to_json()}));
-    let scenario = rng.below(8);
+    let scenario = rng.below(10);
     rep.feat(&format!("scenario_{scenario}"), 1);
     match scenario {
         0 | 1 => thread_race_with_holder(rep, &mut rng, &cfg, &dir),
@@ -113,6 +113,7 @@ pub fn run_case(seed: u64, scratch: &Path, rep: &mut Rep) {
         4 => process_race(rep, &mut rng, &cfg, &dir, scratch),
         5 => after_end(rep, &mut rng, &cfg, &dir, scratch),
         6 => quiet_after_drop(rep, &mut rng, &cfg, &dir),
+        8 | 9 => churn(rep, &mut rng, &cfg, &dir),
         _ => reopen_after_failure(rep, &mut rng, &cfg, &dir),
     }
     rec.start(&dir, Mode::Off);
@@ -243,6 +244,63 @@ fn thread_race_no_holder(rep: &mut Rep, rng: &mut Rng, cfg: &Cfg, dir: &Path, fr
             }
         }
         Ok(Err(e)) => rep.fail("C20", "open-after-race-failed", format!("{what}: reopen failed: {e:#}")),
+        Err(p) => rep.fail("C20", "open-panicked", p),
+    }
+}
+
+/// Threads hammer open / drop on one store; a live counter catches two simultaneous holders.
+fn churn(rep: &mut Rep, rng: &mut Rng, cfg: &Cfg, dir: &Path) {
+    {
+        let Ok(db) = Db::<K>::open(cfg.options(dir)) else { return };
+        commit_some(&db, rng, 10);
+    }
+    let live = Arc::new(std::sync::atomic::AtomicI64::new(0));
+    let max_seen = Arc::new(std::sync::atomic::AtomicI64::new(0));
+    let acquisitions = Arc::new(std::sync::atomic::AtomicU64::new(0));
+    let n = rng.range(3, 8) as usize;
+    let run_ms = rng.range(80, 300);
+    let t_end = Instant::now() + Duration::from_millis(run_ms);
+    let handles: Vec<_> = (0..n)
+        .map(|i| {
+            let (live, max_seen, acq) = (live.clone(), max_seen.clone(), acquisitions.clone());
+            let c = cfg.clone();
+            let d = dir.to_path_buf();
+            std::thread::spawn(move || {
+                let mut x = i as u64 * 7919 + 1;
+                while Instant::now() < t_end {
+                    if let Ok(Ok(db)) = guard(|| Db::<K>::open(c.options(&d))) {
+                        let l = live.fetch_add(1, std::sync::atomic::Ordering::SeqCst) + 1;
+                        max_seen.fetch_max(l, std::sync::atomic::Ordering::SeqCst);
+                        acq.fetch_add(1, std::sync::atomic::Ordering::SeqCst);
+                        x = x.wrapping_mul(6364136223846793005).wrapping_add(1);
+                        if x % 3 == 0 {
+                            std::thread::sleep(Duration::from_micros(x % 400));
+                        }
+                        live.fetch_sub(1, std::sync::atomic::Ordering::SeqCst);
+                        drop(db);
+                    }
+                }
+            })
+        })
+        .collect();
+    for h in handles {
+        let _ = h.join();
+    }
+    let acq = acquisitions.load(std::sync::atomic::Ordering::SeqCst);
+    rep.eval("C20", acq >= 2);
+    rep.feat("churn_acquisitions", acq);
+    let m = max_seen.load(std::sync::atomic::Ordering::SeqCst);
+    if m > 1 {
+        rep.fail(
+            "C20",
+            "two-live-handles:open-drop-churn",
+            format!("{n} threads opening and dropping the store: {m} handles were alive at the same time ({acq} acquisitions)"),
+        );
+    }
+    rep.eval("C20", true);
+    match guard(|| Db::<K>::open(cfg.options(dir))) {
+        Ok(Ok(_)) => {}
+        Ok(Err(e)) => rep.fail("C20", "open-after-churn-failed", format!("open after the churn failed: {e:#}")),
         Err(p) => rep.fail("C20", "open-panicked", p),
     }
 }
